@@ -275,12 +275,95 @@ def unit_histories(ctx):
                               'runs': repr(req[1]), 'theorem_or_correspondence': 'correspondence hs_init/hs_update (feeds C11_defaults_never_written)'}, False)
 
 
+# ---------------------------------------------------------------------------
+# the pytest plugin: doctests of one text file / one module, run in sequence in one process
+# ---------------------------------------------------------------------------
+# block -> (doctest lines, verdict by construction: it is the verdict of the block run alone)
+PT_BLOCKS = {
+    'binds_fails': ([">>> leaked = 41", ">>> print(leaked + 1)", "43"], 'failed'),
+    'binds_passes': ([">>> other = 1", ">>> print(other)", "1"], 'passed'),
+    'binds_raises': ([">>> zed = 5", ">>> raise ValueError('x')"], 'failed'),
+    'reads_leaked': ([">>> print('value', leaked)", "value 41"], 'failed'),
+    'reads_other': ([">>> print('value', other)", "value 1"], 'failed'),
+    'reads_zed': ([">>> print('value', zed)", "value 5"], 'failed'),
+    'reads_dunder': ([">>> print('running as', __name__ == '__main__' or __name__.startswith('xdverif'))", "running as True"], 'passed'),
+    'skip_block': ([">>> # xdoctest: +SKIP", ">>> print('never')"], 'skipped'),
+    'plain': ([">>> print('plain')", "plain"], 'passed'),
+}
+PT_LINE = __import__('re').compile(r'^\S+::\S+ (PASSED|FAILED|SKIPPED|ERROR)')
+
+
+def _pytest_sequence(job):
+    """runs one file holding the blocks in the given order through the pytest plugin; -> statuses in file order"""
+    import subprocess
+    tmp, idx, kind, seq = job
+    d = os.path.join(tmp, 'pt%d' % idx)
+    os.makedirs(d, exist_ok=True)
+    if kind == 'txt':
+        name = 'xdverif_c11_%d.txt' % idx
+        lines = ['A text file with doctests', '']
+        for b in seq:
+            lines += ['Example:'] + ['    ' + l for l in PT_BLOCKS[b][0]] + ['']
+        opts = ['--xdoctest-glob=*.txt', '--xdoctest-style=google']
+    else:
+        name = 'xdverif_c11_%d.py' % idx
+        lines = []
+        for j, b in enumerate(seq):
+            lines += ['def f%d():' % j, '    r"""'] + ['    ' + l for l in PT_BLOCKS[b][0]] + ['    """', '']
+        opts = ['--xdoctest', '--xdoctest-style=freeform']
+    src = '\n'.join(lines) + '\n'
+    open(os.path.join(d, name), 'w').write(src)
+    env = dict(os.environ)
+    env['PYTHONPATH'] = os.path.join(common.REPO, 'src')
+    env.pop('PYTEST_ADDOPTS', None)
+    cmd = [sys.executable, '-m', 'pytest', '-v', '-p', 'no:cacheprovider', '-p', 'no:doctest', '-p', 'no:randomly', '-c', os.devnull,
+           '--rootdir', d] + opts + [name]
+    p = subprocess.run(cmd, cwd=d, env=env, stdout=subprocess.PIPE, stderr=subprocess.STDOUT, timeout=300)
+    out = p.stdout.decode(errors='replace')
+    st = []
+    for line in out.split('\n'):
+        m = PT_LINE.match(line)
+        if m:
+            st.append({'PASSED': 'passed', 'FAILED': 'failed', 'SKIPPED': 'skipped', 'ERROR': 'error'}[m.group(1)])
+    return kind, list(seq), st, src, out[-1500:]
+
+
+def pytest_histories(ctx):
+    rng = ctx.rng('pytest-histories')
+    names = sorted(PT_BLOCKS)
+    seqs = [('binds_fails', 'reads_leaked'), ('binds_passes', 'reads_dunder'), ('binds_raises', 'reads_zed', 'plain'),
+            ('binds_passes', 'reads_other', 'reads_dunder'), ('skip_block', 'plain', 'reads_dunder'), ('reads_leaked', 'binds_fails', 'reads_leaked')]
+    for _ in range(10 if ctx.tier == 'quick' else 150):
+        seqs.append(tuple(rng.choice(names) for _k in range(rng.randint(2, 5))))
+    tmp = tempfile.mkdtemp(prefix='xdverif_c11pt_')
+    try:
+        jobs = [(tmp, i, kind, seq) for i, (kind, seq) in enumerate((k, s) for s in seqs for k in ('txt', 'py'))]
+        results = common.pmap(_pytest_sequence, jobs, chunksize=1)
+    finally:
+        shutil.rmtree(tmp, ignore_errors=True)
+    nv = 0
+    for kind, seq, st, src, tail in results:
+        ctx.evaluations += 1
+        ctx.nontrivial += 1
+        ctx.count('pytest:%s' % kind)
+        expect = [PT_BLOCKS[b][1] for b in seq]
+        if st != expect and nv < 4:
+            nv += 1
+            ctx.violation('pytest-history', {
+                'what': 'doctests of one %s run in sequence by the pytest plugin: blocks %r have (alone, by construction) the verdicts %r but got %r' % (
+                    'text file' if kind == 'txt' else 'module', seq, expect, st),
+                'file_kind': kind, 'sequence': seq, 'file_source': src, 'pytest_tail': tail,
+                'theorem_or_correspondence': 'isolation of consecutive doctests under the pytest plugin (plugin.py collect/runtest)'}, True)
+
+
 def run(ctx):
     unit_histories(ctx)
     history_search(ctx)
+    pytest_histories(ctx)
     ctx.add_rule('RuntimeState: seeded histories of 1..4 states (default options none/{}/booleans) x 0..4 updates (block/inline, +-REQUIRES unmet a/b/met, +-SKIP) vs the heap model; '
                  'DocTest histories: permutations of 2 and 3 of the 13 doctests of a generated module + seeded histories of 4..7 with repetitions, on re-used and fresh '
                  'DocTest objects, x 3 default-option settings: observation (verdict, exception type, logged stdout) vs the first observation of that doctest; '
+                 'the pytest plugin on generated text files (google blocks) and modules holding sequences of 2..5 blocks that bind / read foreign names / fail / raise / skip: per-item verdicts vs the verdict of the block alone; '
                  'non-trivial = history / unit history with several updates')
     ctx.sample({'history': ['d_requires_on', 'd_uses_global', 'd_define', 'd_read'], 'module': 'see MODULE in harness/props/c11.py'})
     ctx.assumptions += ['exec() with a copied namespace dict does not write the module (CPython); in-place mutation of shared module objects is outside the statement',
@@ -290,6 +373,18 @@ def run(ctx):
 def replay(path):
     d = json.load(open(path))
     print(json.dumps({k: v for k, v in d.items() if k != 'module_source'}, indent=1)[:3000])
+    if d.get('kind') == 'pytest-history':
+        tmp = tempfile.mkdtemp(prefix='xdverif_c11pt_')
+        try:
+            kind, seq, st, src, tail = _pytest_sequence((tmp, 0, d.get('file_kind') or ('txt' if d['file_source'].startswith('A text') else 'py'), tuple(d['sequence'])))
+        finally:
+            shutil.rmtree(tmp, ignore_errors=True)
+        expect = [PT_BLOCKS[b][1] for b in seq]
+        print('sequence=%r expected=%r got=%r' % (seq, expect, st))
+        if st != expect:
+            print('VIOLATION property=C11 replay=%s' % path)
+            return 1
+        return 0
     if 'history' in d:
         from xdoctest import core, directive
         tmp = tempfile.mkdtemp(prefix='xdverif_c11r_')
